@@ -18,7 +18,8 @@ LEVELS = "K1-decode (DnsIncoming::new on raw datagrams, full decoded message com
 RULE = ("datagrams from five families: uniformly random, mutations/truncations of valid packets, "
         "valid packets, grammar-generated hostile packets (arbitrary counts, RDLENGTH, pointer graphs), "
         "pointer-graph tables (slots pointing at each other in every direction, entered through a pointer), "
-        "headers whose counts exceed the body (with the largest single allocation measured), "
+        "headers whose counts exceed the body (with the largest single allocation measured), names of "
+        "non-UTF-8 labels (every segment of a decoded name must occur in the datagram), "
         "and (thorough) every string over a 6-byte alphabet up to a fixed length after a header; "
         "non-trivial = longer than a header; distinct = distinct datagrams")
 TRUSTED = [
@@ -109,6 +110,8 @@ def generate(rng, tier):
         cases.append(case(b, "pointer-graph"))
     for b in pointer_graph_cases(rng, n // 6):
         cases.append(case(b, "pointer-graph"))
+    for b in bad_utf8_cases(rng, n // 30):
+        cases.append(case(b, "bad-utf8"))
     for cnt in (0xFFFF, 0x1000, 300):
         # header counts far beyond what the body holds
         for pos in range(4):
@@ -169,6 +172,26 @@ def pointer_graph_cases(rng, n):
     return out
 
 
+def bad_utf8_cases(rng, n):
+    """Names whose labels are mostly bytes that are not UTF-8 (0x80-0xFF, stray continuation
+    bytes, truncated sequences): the decoder must reject them or at least never produce a
+    name longer than the datagram."""
+    out = []
+    for _ in range(n):
+        labels = []
+        for _k in range(rng.randrange(1, 9)):
+            ln = rng.choice([1, 2, 7, 21, 40, 63])
+            labels.append(bytes(rng.choice([0xFF, 0x80, 0xC3, 0xE2, 0xF0, 0x61, rng.randrange(128, 256)]) for _j in range(ln)))
+        p = dnsgen.Packet(compress=False)
+        if rng.random() < 0.5:
+            p.question(labels + [b"local"], 12)
+            out.append(p.finish(flags=0))
+        else:
+            p.rr(1, [b"_x", b"_tcp", b"local"], 12, 1, 120, dnsgen.rd_ptr(labels + [b"_x", b"_tcp", b"local"]))
+            out.append(p.finish(flags=0x8400))
+    return out
+
+
 def pointer_graph_fixed():
     """The shapes a pointer limit that is not moved along lets through: one legal backward hop,
     then a cycle lying entirely below the first target."""
@@ -209,6 +232,34 @@ def py_monitor(line, raw, obs):
     mx = int(m.group(1))
     if mx > 256 * ln + 8192:
         return "FAIL alloc: a single allocation of %d bytes while decoding a %d-byte datagram" % (mx, ln)
+    # every label of every decoded name is copied from the datagram: each dot-free segment of
+    # the name text occurs in the datagram as a contiguous byte string (a decoder that repairs
+    # or re-codes label bytes produces text the datagram does not contain)
+    if obs.startswith("OK ") and line[4:] != "-":
+        data = bytes.fromhex(line[4:])
+        parts = obs[3:].split(" | ")
+        names = []
+        for sec in parts[1:]:
+            for rec in sec.split(" ; "):
+                toks = rec.split(" ")
+                if not toks or not toks[0]:
+                    continue
+                names.append(toks[0])
+                rd = toks[-1] if len(toks) >= 6 else ""
+                if rd.startswith("P:"):
+                    names.append(rd[2:])
+                elif rd.startswith("S:"):
+                    names.append(rd.split(",")[-1])
+                elif rd.startswith("N:"):
+                    names.append(rd[2:].split(",")[0])
+        for nh in names:
+            try:
+                nb = bytes.fromhex(nh)
+            except ValueError:
+                continue
+            for seg in nb.split(b"."):
+                if seg and seg not in data:
+                    return "FAIL name segment %s of a decoded name does not occur in the datagram" % seg.hex()[:60]
     return None
 
 
